@@ -141,7 +141,12 @@ func (root *Root) resolve(
 	t Type,
 	depth int) (result interface{}, ea []error) {
 
-	if depth <= 0 || IsNil(obj) {
+	if IsNil(obj) {
+		// A nil pointer, map or slice inside an interface is null in the
+		// response like the nil interface is.
+		return nil, nil
+	}
+	if depth <= 0 {
 		// If not intended then generate an error later when trying to
 		// generate output.
 		return obj, nil
